@@ -130,7 +130,7 @@ def _uf_e(name):
     return f
 
 
-@harness("C09.mixed", cases=lambda tier: ["scalar", "array1", "array2"] + (["array3"] if tier == "thorough" else []),
+@harness("C09.mixed", cases=lambda tier: ["scalar", "array1", "array2"] + (["array3", "array4"] if tier == "thorough" else []),
          expect=lambda c: ["ice-branch", "water-branch", "between", "blend-formula-endpoints"]
          + (["continuous-in-between"] if c == "array2" else []))
 def k_mixed(ctx):
@@ -289,7 +289,7 @@ PLAN = {
 BOUNDS = {"quick": {"converters": "all x, q in [0,1), w >= 0, all positive molar masses (symbolic M_w, M_d)",
                     "mixed phase": "scalar and arrays of length <= 2, every T > 0, arbitrary positive ice / liquid saturation functions",
                     "lapse rate": "100 <= T <= 400 K, any p > 0, any 0 <= e < p; constants as written in typhon.constants (exact decimal literals)"},
-          "thorough": {"mixed phase": "arrays of length <= 3"}}
+          "thorough": {"mixed phase": "arrays of length <= 4"}}
 OUTSIDE = ["monotonicity in T of the Murphy-Koop formulas, ice <= liquid below the triple point and their 1e-6 agreement at it",
            "one-ulp behaviour at the branch temperatures", "floating-point rounding"]
 STUBS = ["e_eq_water_mk / e_eq_ice_mk -> arbitrary positive functions of T inside e_eq_mixed_mk",
